@@ -102,7 +102,7 @@ def grid_histories(ctx):
     from gym_gridverse.geometry import Position
     r = ctx.rng
     CL, LK, OP = (gen.TY['Door'], 1, 2, None), (gen.TY['Door'], 2, 4, None), (gen.TY['Door'], 0, 1, None)
-    for k in range(40 if ctx.tier == 'quick' else 400):
+    for k in range(120 if ctx.tier == 'quick' else 1200):
         h, w = r.choice([(5, 5), (7, 7), (4, 6), (6, 5)])
         cg = tuple(tuple(r.choice([FLOOR] * 6 + [WALL, CL, LK, OP]) for _ in range(w)) for _ in range(h))
         pos = (h - 1, r.randrange(w))
@@ -125,7 +125,13 @@ def grid_histories(ctx):
                 ctx.violation(f'{name}: a Grid object that was looked at and then changed in place is seen differently from a fresh grid with the same content',
                               {'visibility': name, 'agent': pos, 'content': gen.show_state((content, pos, 0, gen.NONE))['grid'], 'step': step})
                 return
-            # change it in place
+            # change it in place; half of the rounds touch nothing but door statuses (no cell is assigned: the Grid object is not told)
+            doors = [(y, x) for y in range(h) for x in range(w) if hasattr(grid[y, x], 'state') and hasattr(type(grid[y, x]), 'Status')]
+            if doors and r.random() < 0.5:
+                for y, x in r.sample(doors, min(len(doors), r.randint(1, 3))):
+                    d = grid[y, x]
+                    d.state = type(d).Status.OPEN if d.blocks_vision else r.choice([type(d).Status.CLOSED, type(d).Status.LOCKED])
+                continue
             for _ in range(r.randint(1, 3)):
                 y, x = r.randrange(h), r.randrange(w)
                 if (y, x) == pos:
